@@ -9,6 +9,7 @@ A testcase is a file to be reduced, split in a certain way (eg. bytes, lines).
 import abc
 import argparse
 import logging
+import os
 import os.path
 import re
 from pathlib import Path
@@ -374,19 +375,23 @@ class TestcaseSymbol(Testcase):
             before: Split file before these delimiters.
             after: Split file after these delimiters.
         """
+        def _cls(chars: bytes, negate: bool = False) -> bytes:
+            # character class matching exactly the given bytes (or their complement)
+            if not chars:
+                return b"(?s:.)" if negate else b"(?!)"
+            body = b"".join(re.escape(chars[i : i + 1]) for i in range(len(chars)))
+            return b"[" + (b"^" if negate else b"") + body + b"]"
+
         self._cutter = re.compile(
-            b"["
-            + before
-            + b"]?"
-            + b"[^"
-            + before
-            + after
-            + b"]*"
-            + b"(?:["
-            + after
-            + b"]|$|(?=["
-            + before
-            + b"]))"
+            _cls(before)
+            + b"?"
+            + _cls(before + after, True)
+            + b"*"
+            + b"(?:"
+            + _cls(after)
+            + b"|$|(?="
+            + _cls(before)
+            + b"))"
         )
 
     def split_parts(self, data: bytes) -> None:
@@ -397,7 +402,13 @@ class TestcaseSymbol(Testcase):
                 self.reducible.append(True)
 
     def handle_args(self, args: argparse.Namespace) -> None:
-        self.set_cut_chars(args.cut_before, args.cut_after)
+        before, after = args.cut_before, args.cut_after
+        # values given on the command line arrive as str
+        if isinstance(before, str):
+            before = os.fsencode(before)
+        if isinstance(after, str):
+            after = os.fsencode(after)
+        self.set_cut_chars(before, after)
 
     @classmethod
     def add_arguments(cls, parser: argparse.ArgumentParser) -> None:
